@@ -110,6 +110,11 @@ struct Shared {
     /// Some: appends run under this thread-local `metrics` recorder (global-recorder bridge)
     tl_recorder: Option<CountingRecorder>,
     live_bound: u64,
+    /// plan key `children_every` (0 = no entry has a child) and a handle on this very structure for the children
+    children_every: u64,
+    me: Mutex<Option<Arc<Shared>>>,
+    /// threads that await a flush future somebody else requested (joined at the end of the run)
+    awaiters: Mutex<Vec<detsim::thread::JoinHandle<()>>>,
     /// the plan's schedule seed: decides per flush request whether the future migrates between wakers
     run_key: u64,
     hist: History,
@@ -139,6 +144,22 @@ fn do_append(sh: &Shared, h: &Handle, thread: u64, seq: &mut u64) {
 fn do_append_opt(sh: &Shared, h: &Handle, thread: u64, seq: &mut u64, bare: bool) {
     let id = entry_id(thread, *seq);
     *seq += 1;
+    // plan key `children_every`: every k-th entry of a producer owns a child entry, which its destructor appends to
+    // the same queue - wherever that destructor runs (the writer thread after the write, or the thread whose append
+    // displaces the parent from a full queue)
+    if sh.children_every > 0 && thread < 400 && id_seq(id) % sh.children_every == 0 {
+        if let Some(me) = sh.me.lock().unwrap().clone() {
+            let h2 = h.clone();
+            let child_thread = 400 + thread;
+            let child_seq = id_seq(id);
+            if let Ok(mut g) = crate::common::ON_ENTRY_DROP.lock() {
+                g.get_or_insert_with(HashMap::new).insert(id, Box::new(move || {
+                    let mut s = child_seq;
+                    do_append(&me, &h2, child_thread, &mut s);
+                }));
+            }
+        }
+    }
     let me = detsim::current_tid().unwrap();
     if writer_parked(sh) {
         sh.append_while_parked.fetch_add(1, Ordering::SeqCst);
@@ -162,13 +183,19 @@ fn do_append_opt(sh: &Shared, h: &Handle, thread: u64, seq: &mut u64, bare: bool
 /// cannot cause a false alarm).
 fn do_flush(sh: &Shared, h: &Handle, op: &Value) {
     let fid = sh.next_fid.fetch_add(1, Ordering::SeqCst);
-    let mode = js(op, "mode", "await");
     if writer_parked(sh) {
         sh.flush_while_parked.fetch_add(1, Ordering::SeqCst);
     }
     let start_nexts = sh.ctl.nexts_done.load(Ordering::SeqCst);
     sh.hist.log(K::FlushReq { fid });
-    let mut fut = h.flush();
+    let fut = h.flush();
+    drive_flush(sh, fid, fut, op, start_nexts);
+}
+
+/// Wait for (or abandon) a flush request that has been made, as `op` says.
+fn drive_flush(sh: &Shared, fid: u64, fut: FlushWait, op: &Value, start_nexts: u64) {
+    let mode = js(op, "mode", "await");
+    let mut fut = fut;
     let new_waker = || {
         Arc::new(FlushWaker {
             key: detsim::fresh_key(),
@@ -515,6 +542,9 @@ fn queue_main(plan: &Value, slot: Arc<Mutex<Option<QueueRun>>>) {
         tl_recorder: if global_tl { Some(recorder.clone()) } else { None },
         live_bound: liveness_bound(plan).unwrap_or(u64::MAX),
         run_key: ju(plan.get("sched").unwrap_or(&Value::Null), "seed", 0),
+        awaiters: Mutex::new(vec![]),
+        children_every: ju(plan, "children_every", 0),
+        me: Mutex::new(None),
         hist: hist.clone(),
         ctl: ctl.clone(),
         stop: AtomicBool::new(false),
@@ -524,6 +554,10 @@ fn queue_main(plan: &Value, slot: Arc<Mutex<Option<QueueRun>>>) {
         flush_while_parked: AtomicU64::new(0),
     });
     let writer_tid = *sh.writer_tid.lock().unwrap();
+    *sh.me.lock().unwrap() = Some(sh.clone());
+    if let Ok(mut g) = crate::common::ON_ENTRY_DROP.lock() {
+        *g = Some(HashMap::new());
+    }
 
     // re-entrant use of the queue from inside its own collaborators (ids in their own spaces)
     thread_local! {
@@ -538,6 +572,24 @@ fn queue_main(plan: &Value, slot: Arc<Mutex<Option<QueueRun>>>) {
             if idx == at {
                 let mut s = seq.fetch_add(1, Ordering::SeqCst);
                 do_append(&sh2, &h2, 600, &mut s);
+            }
+        });
+    }
+    if let Some(at) = plan.get("flush_from_next_at").and_then(|x| x.as_u64()) {
+        // the stream requests a flush of the very queue that is writing to it, from inside `next` - i.e. on the
+        // queue's own writer thread - and hands the future to another thread, which awaits it
+        let sh2 = sh.clone();
+        let h2 = handle.clone();
+        on_next_cb.set(move |idx: u64| {
+            if idx == at {
+                let fid = sh2.next_fid.fetch_add(1, Ordering::SeqCst);
+                let start_nexts = sh2.ctl.nexts_done.load(Ordering::SeqCst);
+                sh2.hist.log(K::FlushReq { fid });
+                sh2.hist.log(K::Note("flush_requested_on_the_writer_thread".into()));
+                let fut = h2.flush();
+                let sh3 = sh2.clone();
+                let t = detsim::thread::spawn_named("flush-awaiter", move || drive_flush(&sh3, fid, fut, &json!({"mode":"await"}), start_nexts));
+                sh2.awaiters.lock().unwrap().push(t);
             }
         });
     }
@@ -671,8 +723,19 @@ fn queue_main(plan: &Value, slot: Arc<Mutex<Option<QueueRun>>>) {
         }
     }
     let fin = writer_tid.map(detsim::thread_finished).unwrap_or(true);
+    if fin {
+        // (a request made on the writer thread is completed at the latest when that thread exits)
+        let ws: Vec<_> = sh.awaiters.lock().unwrap().drain(..).collect();
+        for w in ws {
+            let _ = w.join();
+        }
+    }
     on_next_cb.clear();
     sh.held.lock().unwrap().clear();
+    *sh.me.lock().unwrap() = None;
+    if let Ok(mut g) = crate::common::ON_ENTRY_DROP.lock() {
+        *g = None;
+    }
     let run = QueueRun {
         hist: hist.snapshot(),
         counters: recorder.counters(),
@@ -853,6 +916,11 @@ pub fn check_no_dup_and_order(d: &Digest, class_prefix: &str) -> Option<Violatio
     for id in &d.delivery {
         let t = id_thread(*id);
         let s = id_seq(*id);
+        // (ids 400..799 belong to child entries, appended by whichever thread drops their parent: no single thread
+        // appends them in sequence, the real-time order below is what holds for them)
+        if (400..800).contains(&t) {
+            continue;
+        }
         if let Some(prev) = last.get(&t) {
             if *prev > s {
                 return Some(Violation::new(
@@ -1308,6 +1376,16 @@ fn outage_stratum(mut plan: Value) -> Value {
 
 /// Appends made by destructors while their thread unwinds from a panic: in a tenth of the plans every third append
 /// operation of the producers is made that way.
+/// A sixth of the overflow plans: every second / third / fifth entry of a producer owns a child entry that its
+/// destructor appends to the same queue.
+fn children_stratum(mut plan: Value) -> Value {
+    let h = mix(ju(plan.get("sched").unwrap_or(&Value::Null), "seed", 0), 0xc41d);
+    if h % 6 == 0 && !jb(&plan, "stalled_single", false) && plan.get("default_capacity").and_then(|x| x.as_bool()) != Some(true) && ju(&plan, "capacity", 0) < 1_000 {
+        plan["children_every"] = json!([2u64, 3, 5][(h / 6 % 3) as usize]);
+    }
+    plan
+}
+
 fn unwinding_append_stratum(mut plan: Value) -> Value {
     let h = mix(ju(plan.get("sched").unwrap_or(&Value::Null), "seed", 0), 0xa99e);
     if h % 10 == 0 {
@@ -1355,6 +1433,16 @@ fn long_idle_stratum(mut plan: Value) -> Value {
 /// The shutdown timeout has no say while the queue is alive: a fifth of the flush-barrier plans run with one of
 /// 1 ms / 50 ms / 2 s (far below the stalls of the stream) and, so that it has no say at the end either, wait for the
 /// writer to be idle before the join handle is dropped.
+/// A tenth of the flush-barrier plans: one flush is requested by the output stream itself, from inside `next` (on the
+/// queue's writer thread), and awaited by another thread.
+fn flush_from_writer_stratum(mut plan: Value) -> Value {
+    let h = mix(ju(plan.get("sched").unwrap_or(&Value::Null), "seed", 0), 0xf1f0);
+    if h % 10 == 0 && plan.get("append_from_next_at").map(|x| x.is_null()).unwrap_or(true) {
+        plan["flush_from_next_at"] = json!((h / 10) % 12);
+    }
+    plan
+}
+
 fn small_timeout_stratum(mut plan: Value) -> Value {
     let h = mix(ju(plan.get("sched").unwrap_or(&Value::Null), "seed", 0), 0x5a11);
     if h % 5 == 0 && ju(&plan, "shutdown_timeout_ns", 0) == 1_000_000_000_000_000 && plan.get("shutdown_timeout_huge").is_none() && plan.get("pre_end").map(|p| p.is_array()).unwrap_or(false) {
@@ -1636,7 +1724,7 @@ impl Scenario for QueueOverflow {
         "C09"
     }
     fn generate(&self, rng: &mut Rng, tier: Tier) -> Value {
-        outage_stratum(unwinding_append_stratum(huge_timeout_stratum(gen_c09(rng, tier))))
+        children_stratum(outage_stratum(unwinding_append_stratum(huge_timeout_stratum(gen_c09(rng, tier)))))
     }
     fn run(&self, plan: &Value) -> Report {
         let (out, run) = run_queue_plan(plan);
@@ -1942,7 +2030,11 @@ pub fn gen_c04_liveness(rng: &mut Rng, _tier: Tier) -> Value {
         }
         producers.push(Value::Array(ops));
     }
-    producers.push(json!([{"op":"pressure","target": (cap - 1).max(1) - rng.below(2).min(cap.saturating_sub(2)), "max": 40 * bound, "others_in_flight": 0}]));
+    // (a third of the plans keep the queue exactly full - as many entries outstanding as it holds, never one more -
+    // so that the "capacity more pops" count-down of a flush request has no slack at all; from a copy of the generator)
+    let brim = rng.clone().next_u64() % 3 == 0;
+    let target = if brim { cap } else { (cap - 1).max(1) - rng.below(2).min(cap.saturating_sub(2)) };
+    producers.push(json!([{"op":"pressure","target": target, "max": 40 * bound, "others_in_flight": 0}]));
     if rng.chance(0.5) {
         // later requests must not starve earlier ones
         producers.push(json!([{"op":"flush_storm","max": 40 * bound}]));
@@ -1970,7 +2062,7 @@ pub fn gen_c04_liveness(rng: &mut Rng, _tier: Tier) -> Value {
         // a fifth of the runs: the stream rejects every single entry (progress must not depend on success)
         "fail_all": if rng.chance(0.3) { json!(*rng.pick(&["V", "I"])) } else { Value::Null },
         // ... from the k-th entry on (a device that breaks after some good writes)
-        "fail_all_from": *rng.pick(&[0u64, 0, 1, 5, 31, 33, 50]),
+        "fail_all_from": *rng.pick(&[0u64, 0, 1, 5, 31, 33, 50, 90, 150, 260, 420, 700]),
         "report_res": "O",
         "flush_fail": [],
         // 15 %: from its k-th call on, every flush of the stream fails (a request completes after the attempt)
@@ -2026,7 +2118,7 @@ impl Scenario for QueueFlushBarrier {
         3
     }
     fn generate(&self, rng: &mut Rng, tier: Tier) -> Value {
-        small_timeout_stratum(huge_timeout_stratum(gen_c04_safety(rng, tier)))
+        flush_from_writer_stratum(small_timeout_stratum(huge_timeout_stratum(gen_c04_safety(rng, tier))))
     }
     fn run(&self, plan: &Value) -> Report {
         let (out, run) = run_queue_plan(plan);
